@@ -107,7 +107,9 @@ def ser(v, depth=0):
                 tab = "," + h(t.tobytes()) if t is not None else ",notable"
             except Exception as e:
                 tab = ",X:" + type(e).__name__
-        return "Xray(%s%s)" % (atom_key(v.element), tab)
+        own = _table_name_of(v.element)
+        rel = "" if (_CUR[0] is None or own == _CUR[0]) else ",of-table:" + own      # an atom must be served its own table's record
+        return "Xray(%s%s%s)" % (atom_key(v.element), tab, rel)
     if hasattr(v, "__dict__") and depth < 4:
         d = dict(vars(v))
         if cname == "Neutron":
@@ -117,6 +119,16 @@ def ser(v, depth=0):
                 d.setdefault(k, getattr(v, k, None))
         return cname + ser(d, depth + 1)
     return "<%s>" % cname
+
+
+_CUR = [None]      # real name of the table whose atom is being observed
+
+
+def _table_name_of(a):
+    from periodictable import core
+    base = a.element if core.ision(a) else a
+    el = base.element if core.isisotope(base) else base
+    return el.table
 
 
 def atom_key(a):
@@ -179,13 +191,19 @@ def observe_read(T, a, p):
         at = atom(T, a)
     except Exception as e:  # the atom itself is unreachable
         return {"cls": "X", "exc": type(e).__name__, "dig": ""}
+    _CUR[0] = _table_name_of(at)
     try:
         v = getattr(at, PROPS.get(p, p))
     except AttributeError:
         return {"cls": "E", "dig": "E"}
     except Exception as e:
         return {"cls": "X", "exc": type(e).__name__, "dig": "X"}
-    return {"cls": classify(p, v), "dig": h(ser(v))}
+    finally:
+        pass
+    try:
+        return {"cls": classify(p, v), "dig": h(ser(v))}
+    finally:
+        _CUR[0] = None
 
 
 # ---- abstraction function --------------------------------------------------
@@ -231,7 +249,10 @@ def group_digest(T, g, full=True):
         ats = [el] + ([iso for iso in el] if full else [])
         if el.ions:
             ats.append(el.ion[el.ions[0]])
+            if full and el.isotopes and el.number % 7 == 6:          # a sample of isotope ions (Co among them)
+                ats.append(el[el.isotopes[0]].ion[el.ions[0]])
         for at in ats:
+            _CUR[0] = _table_name_of(at)
             for nm in names:
                 try:
                     v = getattr(at, nm)
@@ -241,6 +262,7 @@ def group_digest(T, g, full=True):
                 except Exception as e:
                     s = "X:" + type(e).__name__
                 parts.append("%s.%s=%s" % (atom_key(at), nm, s))
+    _CUR[0] = None
     return parts
 
 
@@ -279,7 +301,9 @@ def mutable_ids(T):
         if o is not None and not isinstance(o, (int, float, str, tuple, complex, bool)):
             ids.setdefault(kind, set()).add(id(o))
     for el in t:
-        for at in [el] + [iso for iso in el]:
+        bases = [el] + [iso for iso in el]
+        ions = [ion for b in bases for ion in b.ion.ionset.values()]       # the ions created so far
+        for at in bases + ions:
             d = vars(at)
             for nm in ("crystal_structure", "magnetic_ff", "neutron", "neutron_activation", "_xray"):
                 if nm in d:
@@ -450,8 +474,16 @@ def execute_event(ev):
             return {"cls": "X", "exc": type(e).__name__, "msg": str(e)[:100]}
     if op == "parse":
         t = table(ev["T"])
-        f = P.formula("Co2O3 + 3H[2]2O + Co{2+}Fe[56]{3+}", table=t)
-        ok = all(_owner(a) is t for a in f.atoms)
+        from periodictable import formulas
+        made = [P.formula("Co2O3 + 3H[2]2O + Co{2+}Fe[56]{3+}", table=t),
+                P.formula("5wt% NaCl@2.16 // D2O@1n", table=t),
+                P.formula("20vol% Fe[56]@7 // Ni{2+}@8", table=t),
+                P.formula("1um Si // 2nm Co@8.9", table=t),
+                formulas.mix_by_weight("H2O@1", 1, "D2O@1.1n", 2, table=t),
+                formulas.mix_by_volume("H2O@1", 1, "Co[59]{2+}O@6", 2, table=t),
+                P.formula("aa:GAVL", table=t) if hasattr(P, "fasta") or True else None,
+                formulas.formula_grammar(table=t).parse_string("CoO", parse_all=True)[0]]
+        ok = all(_owner(a) is t for f in made if f is not None for a in f.atoms)
         return {"cls": "T" if ok else "F"}
     if op == "pickle":
         at = atom(ev["T"], ev["a"])
